@@ -38,6 +38,13 @@ def generate(rng, tier):
         base = "%s %s 7 %s %s %s" % (enc(us), enc(ps), N_LE.hex(), B32.hex(), salt.hex())
         cs.append(Case("cli.new %s | %s" % (base, a.hex()), "client-base-multiple-of-N", "ok %s %s ~32" % (e["A32"].hex(), e["M1"].hex())))
         cs.append(Case("cli.verify %s %s | %s" % (base, e["M2"].hex(), a.hex()), "client-base-multiple-of-N-verify", "ok %s ~32" % e["K"].hex()))
+    # the server's own key B = 3v + g^b is congruent to 0: both builds refuse it, and with the SAME error kind (the kind is the tail of the
+    # `expect` message of into_proof, which the comparison between the two builds keeps) — for many drawn b, v := -g^b / 3 mod N
+    inv3 = pow(3, -1, N)
+    for bb in [1, 2, 3, 255, 256, N - 1] + [pyref.le(rbytes(rng, 32)) % N for _ in range(12)]:
+        if bb == 0: continue
+        v = ((0 - pow(7, bb, N)) * inv3) % N
+        cs.append(Case("srv.proof 41 %s %s | %s" % (le32(v).hex(), Z32.hex(), le32(bb).hex()), "server-self-B-is-zero", "panic"))
     # former divergence classes
     B = le32(5).hex()
     for g in (0, 1, 2, 7, 10, 255):
